@@ -154,6 +154,7 @@ func (m *M) callFn(fn *ssa.Function, args []Value, env []Value, retTo ssa.Value,
 	}
 	// 4. inline
 	if ex.encoded(fn) {
+		ensureBuilt(fn)
 		if len(fn.Blocks) == 0 {
 			abortf("encoded function %s has no body (assembly / linkname): needs an intrinsic", name)
 		}
@@ -177,8 +178,26 @@ func (m *M) callFn(fn *ssa.Function, args []Value, env []Value, retTo ssa.Value,
 
 type framePushed struct{}
 
+// ensureBuilt builds the SSA bodies of the function's package on first use (Package.Build is idempotent and
+// concurrency-safe).
+func ensureBuilt(fn *ssa.Function) {
+	f := fn
+	for f != nil {
+		if f.Pkg != nil {
+			f.Pkg.Build()
+			return
+		}
+		if o := f.Origin(); o != nil && o != f {
+			f = o
+			continue
+		}
+		f = f.Parent()
+	}
+}
+
 func (m *M) pushFrame(fn *ssa.Function, args []Value, env []Value, retTo ssa.Value, isDefer bool) {
 	ex := m.ex
+	ensureBuilt(fn)
 	if len(m.st.Frames) > 200 {
 		abortf("call depth exceeded at %s", fn)
 	}
